@@ -432,12 +432,18 @@ def check_vec(o):
 
 
 # ---------------------------------------------------------------- C17
-def _mesh(cls, m):
+def _mesh(cls, m, tl_form=None, pts_dtype=None):
     import menpo.shape as ms
     from menpo.image import Image
 
     P = L.pts(m["pts"])
+    if pts_dtype is not None:
+        P = P.astype(pts_dtype)
     tl = np.array(m["tris"], dtype=np.uint32)
+    if tl_form == "list":
+        tl = [[int(x) for x in t] for t in m["tris"]]
+    elif tl_form is not None:
+        tl = np.array(m["tris"], dtype=tl_form)
     n = P.shape[0]
     if cls == "TriMesh":
         return ms.TriMesh(P, trilist=tl), None
@@ -483,6 +489,20 @@ def check_mask(o):
             bad.append(("masked mesh malformed: " + wf, {}, None))
     if not bad:
         _geom_clauses(r, o["rgeom"], bad, "masked mesh: ")
+    if not bad:
+        # the same mesh whatever integer type (or plain list) its triangle list came in, and with single-precision points
+        for form, pdt in (("int64", None), ("int32", None), ("uint16", None), ("int8", None), ("list", None), (None, np.float32)):
+            try:
+                m2, _ = _mesh(c["cls"], o["m"], tl_form=form, pts_dtype=pdt)
+                r2 = m2.from_mask(mask) if c["kind"] == "vmask" else m2.from_tri_mask(mask)
+            except Exception as e:
+                bad.append(("masking the same mesh given with %s raised %s" % ("a %s triangle list" % form if form else "float32 points", type(e).__name__),
+                            {"msg": str(e)[:120]}, None))
+                break
+            if r2.points.shape != EP.shape or not np.allclose(r2.points, EP, rtol=0, atol=1e-5 if pdt else 0) or \
+               np.asarray(r2.trilist).shape != ET.shape or not np.array_equal(np.asarray(r2.trilist, dtype=int), ET):
+                bad.append(("masking the same mesh given with %s gives another mesh" % ("a %s triangle list" % form if form else "float32 points"), {}, None))
+                break
     return bad
 
 
